@@ -436,9 +436,10 @@ class VAMMessage(CooperativeAwarenessMessage):
         dict
             Position confidence ellipse value.
         """
+        # SemiAxisLength is 0..4095 cm: 4094 means outOfRange, 4095 unavailable.
         position_confidence_ellipse = {
-            "semiMajorAxisLength": int(epx * 100),
-            "semiMinorAxisLength": int(epy * 100),
+            "semiMajorAxisLength": min(int(epx * 100), 4094),
+            "semiMinorAxisLength": min(int(epy * 100), 4094),
             "semiMajorAxisOrientation": 0,
         }
 
